@@ -18,7 +18,7 @@ THEOREMS = ['PyDBML.C15.column_props_hidden', 'PyDBML.C15.table_props_hidden', '
             'PyDBML.C15.parseDoc_no_props_when_off', 'PyDBML.C02.flags_document_roundtrip_partial', 'PyDBML.C02.flags_refs_roundtrip_partial', 'PyDBML.C02.flags_tables_roundtrip_partial', 'PyDBML.C02.flags_table_roundtrip_partial', 'PyDBML.C02.item_ok',
             'PyDBML.C02.fold_append_props', 'PyDBML.C02.dictOf_distinct']
 MODULES = ['PyDBMLProofs.Props.C15', 'PyDBMLProofs.Props.C15Grammar', 'PyDBMLProofs.Hoare', 'PyDBMLProofs.Props.C02Form',
-           'PyDBMLProofs.Props.C02Flags', 'PyDBMLProofs.Props.C02Comment', 'PyDBMLProofs.Props.C02FormTables', 'PyDBMLProofs.Props.C02FormRefs', 'PyDBMLProofs.Props.C02FlagsTables', 'PyDBMLProofs.Props.C02Doc', 'PyDBMLProofs.Props.C02DocMore', 'PyDBMLProofs.Props.C02Group', 'PyDBMLProofs.Props.C02Inline', 'PyDBMLProofs.Props.C02Project', 'PyDBMLProofs.Props.C02EnumNote', 'PyDBMLProofs.Props.C02Document']
+           'PyDBMLProofs.Props.C02Flags', 'PyDBMLProofs.Props.C02Comment', 'PyDBMLProofs.Props.C02FormTables', 'PyDBMLProofs.Props.C02FormRefs', 'PyDBMLProofs.Props.C02FlagsTables', 'PyDBMLProofs.Props.C02Doc', 'PyDBMLProofs.Props.C02DocMore', 'PyDBMLProofs.Props.C02Group', 'PyDBMLProofs.Props.C02Inline', 'PyDBMLProofs.Props.C02Project', 'PyDBMLProofs.Props.C02EnumNote', 'PyDBMLProofs.Props.C02TableNote', 'PyDBMLProofs.Props.C02Document']
 
 
 def has_props(spec):
